@@ -49,7 +49,9 @@ Next ==
                  /\ viol' = IF vs = {} THEN viol ELSE Add(CHOOSE x \in vs : TRUE, l, e.call)
                  /\ ncalls' = ncalls + 1 /\ UNCHANGED nruns
          [] e.ev = "call" /\ e.res = "Panic" ->
-              /\ viol' = Add([C02 |-> {"panic"}], l, e.call) /\ UNCHANGED <<g, nruns>> /\ ncalls' = ncalls + 1
+              \* a panic of the code under test: reported for C06 and for whichever cluster monitor is selected
+              /\ viol' = Add([p \in {q \in {"C02", "C03", "C04", "C05", "C06", "C18"} : On("MON_" \o q)} |-> {"panic"}], l, e.call)
+              /\ UNCHANGED <<g, nruns>> /\ ncalls' = ncalls + 1
          [] e.ev = "join" ->
               /\ g' = [g EXCEPT !.lastJoin = e.now] /\ UNCHANGED <<viol, ncalls, nruns>>
          [] e.ev = "formed" ->
